@@ -28,15 +28,19 @@ Open Scope Z_scope.
 Record cfg := { c_ttl : Z; c_max : nat; c_pool : nat; c_clamp : bool }.
 
 (* ---- api_tokens ------------------------------------------------------------------- *)
-Record row := { r_id : N; r_val : N; r_enabled : bool; r_exp : option Z; r_perms : N }.
+Record row := { r_id : N; r_val : N; r_enabled : bool; r_exp : option Z; r_perms : N;
+                r_legacy : bool (* token_prefix = '__legacy__' (pre-prefix rows kept by backfillTokenPrefixes) *) }.
 Definition db := list row.                       (* in rowid order *)
 
 Record info := { i_id : N; i_perms : N; i_exp : option Z }.
 Definition info_of (r : row) : info := {| i_id := r_id r; i_perms := r_perms r; i_exp := r_exp r |}.
 
-(* SELECT ... WHERE enabled = 1 AND token_prefix = ? ; first row whose hash verifies *)
-Definition find_row (d : db) (v : N) : option row :=
-  find (fun r => r_enabled r && N.eqb (r_val r) v) d.
+(* SELECT ... WHERE enabled = 1 AND (token_prefix = ? OR token_prefix = '__legacy__'), then the
+   first candidate whose hash verifies.  A non-legacy row's prefix is the prefix of the value
+   it stores (prefix collisions of distinct values are not modelled). *)
+Definition matches (v : N) (r : row) : bool :=
+  r_enabled r && (r_legacy r || N.eqb (r_val r) v) && N.eqb (r_val r) v.
+Definition find_row (d : db) (v : N) : option row := find (matches v) d.
 
 (* expiresAt.Valid && now.After(expiresAt.Time) *)
 Definition expired (e : option Z) (now : Z) : bool :=
@@ -45,7 +49,7 @@ Definition expired (e : option Z) (now : Z) : bool :=
 Inductive op :=
 | Revoke (id : N)                 (* UPDATE api_tokens SET enabled = 0 *)
 | Delete (id : N)
-| Rotate (id : N) (newv : N)      (* new hash + prefix *)
+| Rotate (id : N) (newv : N)      (* new hash + prefix (a legacy row becomes an ordinary one) *)
 | SetExp (id : N) (e : Z)         (* UpdateToken(expiresAt) *)
 | SetPerms (id : N) (p : N).      (* UpdateToken(permissions) *)
 
@@ -56,10 +60,10 @@ Definition has_id (d : db) (id : N) : bool := existsb (fun r => N.eqb (r_id r) i
 
 Definition upd_row (o : op) (r : row) : row :=
   match o with
-  | Revoke _ => {| r_id := r_id r; r_val := r_val r; r_enabled := false; r_exp := r_exp r; r_perms := r_perms r |}
-  | Rotate _ nv => {| r_id := r_id r; r_val := nv; r_enabled := r_enabled r; r_exp := r_exp r; r_perms := r_perms r |}
-  | SetExp _ e => {| r_id := r_id r; r_val := r_val r; r_enabled := r_enabled r; r_exp := Some e; r_perms := r_perms r |}
-  | SetPerms _ p => {| r_id := r_id r; r_val := r_val r; r_enabled := r_enabled r; r_exp := r_exp r; r_perms := p |}
+  | Revoke _ => {| r_id := r_id r; r_val := r_val r; r_enabled := false; r_exp := r_exp r; r_perms := r_perms r; r_legacy := r_legacy r |}
+  | Rotate _ nv => {| r_id := r_id r; r_val := nv; r_enabled := r_enabled r; r_exp := r_exp r; r_perms := r_perms r; r_legacy := false |}
+  | SetExp _ e => {| r_id := r_id r; r_val := r_val r; r_enabled := r_enabled r; r_exp := Some e; r_perms := r_perms r; r_legacy := r_legacy r |}
+  | SetPerms _ p => {| r_id := r_id r; r_val := r_val r; r_enabled := r_enabled r; r_exp := r_exp r; r_perms := p; r_legacy := r_legacy r |}
   | Delete _ => r
   end.
 
@@ -148,11 +152,14 @@ Inductive pc :=
 | M0 (m : mode) (o : op)
 | M1 (w : nat) (ok : bool)                                    (* table at version w; InvalidateCache pending *)
 | M2 (w : nat) (ok : bool)                                    (* invalidated, not yet returned *)
-| MDone (w : nat) (ok : bool).
+| MDone (w : nat) (ok : bool)
+| J0                                                          (* cleanupExpiredCache not started *)
+| J1 (nowj : Z)                                               (* now := time.Now() taken; about to Lock *)
+| JDone.
 (* minv (ghost) = s_done when the verification started *)
 
 Inductive label := LHit | LMiss | LMatch | LNoMatch | LInsert | LVRet
-                 | LUpdate | LUpdateDone | LInvalidate | LMRet.
+                 | LUpdate | LUpdateDone | LInvalidate | LMRet | LJStart | LJSweep.
 
 Definition cache_expiry (c : cfg) (now0 : Z) (e : option Z) : Z :=
   match c_clamp c, e with
@@ -203,6 +210,11 @@ Definition step (c : cfg) (s : st) (t : pc) : option (st * pc * label) :=
   | M1 w ok => Some (invalidate s, M2 w ok, LInvalidate)
   | M2 w ok => Some (set_done (Nat.max (s_done s) w) s, MDone w ok, LMRet)
   | MDone _ _ => None
+  (* the cache janitor: under the write lock, every entry with now.After(expiresAt) is deleted -
+     atomically, nothing else changes *)
+  | J0 => Some (s, J1 (s_now s), LJStart)
+  | J1 nowj => Some (set_cache (filter (fun ke => negb (ce_exp (snd ke) <? nowj)) (s_cache s)) s, JDone, LJSweep)
+  | JDone => None
   end.
 
 (* environment: the clock advances; the janitor (cleanupExpiredCache) or anything else may
@@ -213,10 +225,10 @@ Inductive env : st -> st -> Prop :=
 
 (* threads that may appear at any time; [okop] restricts the mutations in the system *)
 Definition spawnable (okop : op -> Prop) (t : pc) : Prop :=
-  match t with V0 _ => True | M0 _ o => okop o | _ => False end.
+  match t with V0 _ => True | M0 _ o => okop o | J0 => True | _ => False end.
 
 Definition finished (t : pc) : bool :=
-  match t with VDone _ _ _ _ | MDone _ _ => true | _ => false end.
+  match t with VDone _ _ _ _ | MDone _ _ | JDone => true | _ => false end.
 
 Definition holding (t : pc) : nat :=
   match t with V2 _ _ _ _ _ | V3 _ _ _ _ _ => 1%nat | _ => O end.
@@ -247,13 +259,13 @@ Fixpoint run_sched (c : cfg) (s : st) (ts : list pc) (sch : list sched_ev) : st 
   end.
 
 (* what the harness reports per schedule entry: 0 tick, 1 blocked on the connection,
-   2 the call returned, 3 thread had already returned, 1x parked at a schedule point *)
+   2 the call returned, 3 thread had already returned, 1x parked at a schedule point (15: janitor before its Lock) *)
 Definition outcome_code (o : outcome) : N :=
   match o with
   | OTick => 0 | OBlocked => 1 | OAlready => 3 | OBad => 99
-  | OLab LHit | OLab LNoMatch | OLab LVRet | OLab LUpdateDone | OLab LMRet => 2
+  | OLab LHit | OLab LNoMatch | OLab LVRet | OLab LUpdateDone | OLab LMRet | OLab LJSweep => 2
   | OLab LMiss => 10 | OLab LMatch => 11 | OLab LInsert => 12
-  | OLab LUpdate => 13 | OLab LInvalidate => 14
+  | OLab LUpdate => 13 | OLab LInvalidate => 14 | OLab LJStart => 15
   end%N.
 
 Definition result := option (bool * N * N).      (* returned?, (success, token id, permissions) *)
@@ -262,6 +274,7 @@ Definition res_of (t : pc) : result :=
   | VDone _ _ _ (Some (i, _)) => Some (true, i_id i, i_perms i)
   | VDone _ _ _ None => Some (false, 0%N, 0%N)
   | MDone _ ok => Some (ok, 0%N, 0%N)
+  | JDone => Some (true, 0%N, 0%N)
   | _ => None
   end.
 
@@ -377,7 +390,7 @@ Definition dec_sched (ticks : list Z) (z : Z) : list sched_ev :=
       (digits 200 64 z).
 
 Definition dec_steps (z : Z) : list N :=
-  map (fun d => nth (Z.to_nat d) [0; 1; 2; 3; 10; 11; 12; 13; 14]%N 98%N) (digits 200 16 z).
+  map (fun d => nth (Z.to_nat d) [0; 1; 2; 3; 10; 11; 12; 13; 14; 15]%N 98%N) (digits 200 16 z).
 
 (* digit = returned + 2*success + 4*token id + 256*permission code *)
 Definition dec_res (z : Z) : list result :=
